@@ -19,6 +19,7 @@ from ndn.security.signer.sha256_ecdsa_signer import Sha256WithEcdsaSigner
 from ndn.security.signer.sha256_rsa_signer import Sha256WithRsaSigner
 from ndn.security.signer.ed25519_signer import Ed25519Signer
 from ndn.security.signer.sha256_digest_signer import DigestSha256Signer
+from ndn.security.signer.sha256_hmac_signer import HmacSha256Signer
 from ndn.app_support import security_v2 as sv2
 from ndn.app_support.light_versec import compile_lvs, Checker, lvs_validator
 from ndn.security.validator import cascade_validator
@@ -137,6 +138,10 @@ def _flip_last(wire):
     return bytes(b)
 
 
+NOT_KEYS = {'forged', 'digest', 'none', 'hmac', 'unknownsig', 'hmacpub', 'digestkl', 'wrongtype'}
+OTHER_TYPE = {'ec': 'rsa', 'rsa': 'ec', 'ed': 'ec'}
+
+
 class Mat:
     """materialised world"""
     def __init__(self):
@@ -175,13 +180,31 @@ def materialise(world, kt, pool):
         rn = real_name(n, sh, dict(world.get('twin') or {}).get(n))
         m.name[n] = rn + [ver] if not sh.startswith('d') else rn
     key_ids = sorted(({c['key'] for c in certs.values()} | {c['sig'] for c in certs.values()} | {p['sig'] for p in pkts.values()})
-                     - {'forged', 'digest', 'none', 'hmac', 'unknownsig'})
+                     - NOT_KEYS)
     kidx = {k: i for i, k in enumerate(key_ids)}
 
     def signer_for(el):
         kl = None if el['kl'] == 'none' else m.name[el['kl']]
         if el['sig'] == 'digest':
             return DigestSha256Signer(), False
+        if el['sig'] == 'hmacpub':
+            # HMAC keyed with what everybody knows: the public key bits of the certificate the key locator names
+            k = certs[el['kl']]['key'] if el['kl'] in certs else key_ids[0]
+            return HmacSha256Signer(kl, pool.get(kt, kidx[k])[1]), False
+        if el['sig'] == 'digestkl':
+            sg = DigestSha256Signer()
+            orig = sg.write_signature_info
+
+            def with_locator(signature_info):
+                orig(signature_info)
+                signature_info.key_locator = enc.KeyLocator()
+                signature_info.key_locator.name = kl
+            sg.write_signature_info = with_locator
+            return sg, False
+        if el['sig'] == 'wrongtype':
+            # a genuine signature, but of another algorithm than the key of the named certificate
+            other = OTHER_TYPE[kt]
+            return _signer(other, kl, pool.get(other, 0)[0]), False
         if el['sig'] in ('hmac', 'unknownsig'):
             return _OddSigner(enc.SignatureType.HMAC_WITH_SHA256 if el['sig'] == 'hmac' else 200, kl), False
         if el['sig'] == 'forged':
@@ -254,6 +277,7 @@ class Scenario:
         self.ctx = {v: contextvars.copy_context() for v in self.insts}
         self.serv = {n: c['serv'] for n, c in dict(world['certs']).items()}   # changes with heal()
         self.req_start = {}    # v -> number of requests before its current validation started
+        self.raised = []       # validations that ended with ValueError (counted as rejections)
         self.dead = set()      # instances whose validation re-requested a certificate it was already resolving
         self.out = []
         self.cur = {}
@@ -286,6 +310,11 @@ class Scenario:
                     continue
                 if t.cancelled():
                     r = 'cancelled'
+                elif isinstance(t.exception(), ValueError):
+                    # a signature type that does not fit the certificate's key makes the key import raise ValueError
+                    # out of the validator: not an acceptance - counted as a rejection (see TrustChain.tla, LinkDevs)
+                    r = 'F'
+                    self.raised.append((v, self.cur[v], '%s: %s' % (type(t.exception()).__name__, t.exception())))
                 elif t.exception() is not None:
                     r = 'exc:' + type(t.exception()).__name__
                 else:
